@@ -65,6 +65,9 @@ def _call(fname, args, kwargs):
     raise ValueError('unknown function {}'.format(fname))
 
 
+_NP_TRACK = None   # when a list: every plain ndarray operand created by ev() is recorded with a pristine copy (NumPy never mutates an operand)
+
+
 def ev(node, leaf):
     'evaluate a node; leaf(node) supplies the value of an arr node'
     t = node[0]
@@ -87,7 +90,10 @@ def ev(node, leaf):
     if t == 'new':
         return None
     if t == 'np':
-        return numpy.array(node[2], dtype={'b': bool, 'i': int, 'f': float, 'c': complex}[node[1]])
+        a = numpy.array(node[2], dtype={'b': bool, 'i': int, 'f': float, 'c': complex}[node[1]])
+        if _NP_TRACK is not None:
+            _NP_TRACK.append((a, a.copy()))
+        return a
     if t == 'cplx':
         return complex(node[1], node[2])
     if t == 'npscalar':
@@ -337,7 +343,7 @@ class Outcome:
 
 
 _CAT = {'build-raise': 'raise', 'eval-raise': 'raise', 'shape': 'mismatch', 'dtype': 'mismatch', 'value': 'mismatch', 'arity': 'mismatch', 'type': 'mismatch',
-        'accepted-invalid': 'accepted-invalid'}
+        'accepted-invalid': 'accepted-invalid', 'operand-mutated': 'operand-mutated'}
 
 
 def _key(cat, case):
@@ -402,9 +408,12 @@ def prepare(ctx, case):
         obj, args = ctx.operand(l)
         arguments.update(args)
         return obj
+    global _NP_TRACK
+    _NP_TRACK = []
     try:
         built = ev(node, leaf)
     except Exception as e:
+        _NP_TRACK = None
         if nperr is not None:
             return Outcome('rejected')
         label = deliberate_rejection(node, e, case['tag'])
@@ -414,6 +423,10 @@ def prepare(ctx, case):
             return o
         return Outcome('violation', _key('build-raise', case),
                        'numpy returns {} but building the nutils expression raised {}: {}'.format(_describe_ref(refs[0]), type(e).__name__, str(e)[:300]))
+    tracked, _NP_TRACK = _NP_TRACK, None
+    for a, pristine in tracked:
+        if a.shape != pristine.shape or not numpy.array_equal(a, pristine):
+            return Outcome('violation', _key('operand-mutated', case), 'building the nutils expression modified a plain ndarray operand in place: {} became {}'.format(pristine.tolist(), a.tolist()))
     if nperr is not None:
         what = 'numpy rejects the call ({}: {}) but nutils built {!r}'.format(type(nperr).__name__, str(nperr)[:200], _short(built))
         outs = _flat_outputs(built)
